@@ -92,11 +92,30 @@ pub fn get_or_create_db_key(service_id: &str, db_key_id: &str) -> Result<Encrypt
     }
 
     // Key doesn't exist, acquire lock to prevent race conditions during generation
+    with_key_generation_lock(|| get_or_create_db_key_locked(service_id, db_key_id))
+}
+
+/// Runs `f` while holding the in-process key-generation lock.
+///
+/// [`MdkSqliteStorage::new`](crate::MdkSqliteStorage::new) uses this to make "create the database
+/// file and decide on its key" one step for the other threads of the process; inside `f` use
+/// [`get_or_create_db_key_locked`], which does not take the lock again.
+pub(crate) fn with_key_generation_lock<T>(
+    f: impl FnOnce() -> Result<T, Error>,
+) -> Result<T, Error> {
     let lock = KEY_GENERATION_LOCK.get_or_init(|| Mutex::new(()));
     let _guard = lock
         .lock()
         .map_err(|e| Error::Keyring(format!("Failed to acquire key generation lock: {}", e)))?;
+    f()
+}
 
+/// [`get_or_create_db_key`] for callers that already hold the key-generation lock
+/// (see [`with_key_generation_lock`]).
+pub(crate) fn get_or_create_db_key_locked(
+    service_id: &str,
+    db_key_id: &str,
+) -> Result<EncryptionConfig, Error> {
     // Double-check after acquiring lock (another thread may have created it)
     if let Some(config) = get_db_key(service_id, db_key_id)? {
         return Ok(config);
